@@ -88,6 +88,103 @@ inline void alias_pair(ClassAdapter<D>& A, const std::string& name, bool binary,
   A.muts.push_back(M(name + "[copy]", binary, [f](D& d, const D* a) { return f(d, a, false); }));
 }
 
+// =========================================================================================================
+// ABSOLUTE oracles (they do not depend on the rebuilt twin, which goes through the same library code).
+//  * an operation may return "INVARIANT:<clause>|<what>": check_transition reports it by itself;
+//  * equality must agree with mutual containment, also once both sides have been minimized;
+//  * a system handed out by const reference, copy-constructed and assigned into fresh objects, must be OK()
+//    (Linear_System::OK() checks the sorted flag against the rows) and must describe the same set.
+inline std::string& eq_alarm() { static std::string s; return s; }       // set by consistent_equal, read by check_transition
+inline std::string marker(const std::string& clause, const std::string& what) { return "INVARIANT:" + clause + "|" + what; }
+
+inline void min_desc(const void*) {}
+inline void min_desc(const PPL::Polyhedron* p) { if (p->space_dimension() > 0) { (void)p->minimized_constraints(); (void)p->minimized_generators(); } }
+inline void min_desc(const PPL::Grid* g) { if (g->space_dimension() > 0) { (void)g->minimized_congruences(); (void)g->minimized_grid_generators(); } }
+template <class D> inline void minimize_both_descriptions(const D& d, int) { min_desc(&d); }
+
+// "" when == / != agree with mutual containment (before and after minimization), else a description
+template <class D> inline std::string equality_inconsistency(const D& a, const D& b) {
+  if (a.space_dimension() != b.space_dimension()) return std::string();
+  for (int round = 0; round < 2; ++round) {
+    bool eq = (a == b), ne = (a != b), mutual = a.contains(b) && b.contains(a);
+    if (eq != mutual || ne == eq) {
+      using namespace PPL::IO_Operators; std::ostringstream o;
+      o << (round ? "after minimizing both sides: " : "") << "operator== says " << b2s(eq) << ", operator!= says " << b2s(ne) << ", mutual containment says " << b2s(mutual) << " for " << a << " and " << b;
+      return o.str().substr(0, 300);
+    }
+    if (round == 0) { minimize_both_descriptions(a, 0); minimize_both_descriptions(b, 0); }
+  }
+  return std::string();
+}
+// the semantic equality used by the pool oracle for the simple domains of groups 7-11
+template <class D> inline bool consistent_equal(const D& a, const D& b) {
+  if (a.space_dimension() != b.space_dimension()) return false;
+  std::string w = equality_inconsistency(a, b);
+  if (!w.empty() && eq_alarm().empty()) eq_alarm() = w;
+  return a.contains(b) && b.contains(a);
+}
+
+// copy-construct and assign a system obtained by const reference; build the domain from the copies
+template <class D, class SYS>
+inline std::string check_system_copies(const D& d, const SYS& s, const std::string& accessor, bool exact, bool by_constraints) {
+  SYS c1(s);
+  SYS c2; c2 = s;
+  if (!c1.OK()) return marker("invariant:temporary", "copy-constructed copy of " + accessor + " is not OK()");
+  if (!c2.OK()) return marker("invariant:temporary", "assigned copy of " + accessor + " is not OK()");
+  if (io_print(c1) != io_print(s) || io_print(c2) != io_print(s)) return marker("invariant:temporary", "copy of " + accessor + " prints differently from the original");
+  if (!exact) return std::string();
+  if (!by_constraints && d.is_empty()) return std::string();          // an empty generator system carries no space dimension
+  D q1(c1), q2(c2), q0(s);
+  D* qs[3] = { &q1, &q2, &q0 };
+  for (int k = 0; k < 3; ++k) {
+    D& q = *qs[k];
+    if (q.space_dimension() < d.space_dimension()) { if (by_constraints) q.add_space_dimensions_and_embed(d.space_dimension() - q.space_dimension()); else continue; }
+    const char* which = k == 0 ? "the copy-constructed copy of " : k == 1 ? "the assigned copy of " : "";
+    if (!q.OK()) return marker("invariant:temporary", "object built from " + std::string(which) + accessor + " is not OK()");
+    if (!(q.contains(d) && d.contains(q))) return marker("invariant:temporary", "object built from " + std::string(which) + accessor + " denotes a different set: " + io_print(q).substr(0, 120));
+    std::string w = equality_inconsistency(q, d);
+    if (!w.empty()) return marker("equality:disagrees-with-mutual-containment", "object built from " + std::string(which) + accessor + " vs its source: " + w);
+    // against an independently minimized equal object
+    D r(d); minimize_both_descriptions(r, 0); minimize_both_descriptions(q, 0);
+    w = equality_inconsistency(q, r);
+    if (!w.empty()) return marker("equality:disagrees-with-mutual-containment", "object built from " + std::string(which) + accessor + " vs a minimized copy of its source: " + w);
+  }
+  return std::string();
+}
+
+template <class PH>
+inline void add_system_copy_oracles(ClassAdapter<PH>& A, const PPL::Polyhedron*) {
+  typedef Mut<PH> M; typedef PH D;
+  Variable x(0), y(1);
+  A.muts.push_back(M("copies of constraints()", false, [](D& d, const D*) { return check_system_copies(d, d.constraints(), "constraints()", true, true); }, true));
+  A.muts.push_back(M("copies of minimized_constraints()", false, [](D& d, const D*) { return check_system_copies(d, d.minimized_constraints(), "minimized_constraints()", true, true); }, true));
+  A.muts.push_back(M("copies of generators()", false, [](D& d, const D*) { return check_system_copies(d, d.generators(), "generators()", true, false); }, true));
+  A.muts.push_back(M("copies of minimized_generators()", false, [](D& d, const D*) { return check_system_copies(d, d.minimized_generators(), "minimized_generators()", true, false); }, true));
+  A.muts.push_back(M("copies of congruences()", false, [](D& d, const D*) { Congruence_System cg(d.congruences()); return check_system_copies(d, cg, "congruences()", false, true); }, true));
+  // lazy states with pending rows next to a part flagged as sorted by an earlier comparison
+  A.muts.push_back(M("operator== with a copy", false, [](D& d, const D*) { D c(d); std::string w = equality_inconsistency(d, c); if (!w.empty()) return marker("equality:disagrees-with-mutual-containment", "object vs its copy: " + w); return b2s(d == c); }, true));
+  A.muts.push_back(M("add_generator(p(-1,1))", false, [x, y](D& d, const D*) { d.add_generator(PPL::point(-x + y)); return std::string(); }));
+  A.muts.push_back(M("add_constraint(A-B>=-1)", false, [x, y](D& d, const D*) { d.add_constraint(x - y >= -1); return std::string(); }));
+  A.initials.push_back(std::make_pair(std::string("square[0,2]^2 minimized and ==-compared + pending vertex (-1,1)"), std::function<PH*()>([x, y]() {
+    PH* d = new PH(2); d->add_constraint(x >= 0); d->add_constraint(x <= 2); d->add_constraint(y >= 0); d->add_constraint(y <= 2);
+    (void)d->minimized_generators(); { PH c(*d); (void)(*d == c); } d->add_generator(PPL::point(-x + y)); return d; })));
+  A.initials.push_back(std::make_pair(std::string("pentagon by generators minimized and ==-compared + pending constraint A+B>=1"), std::function<PH*()>([x, y]() {
+    Generator_System gs; gs.insert(PPL::point(-x + y)); gs.insert(PPL::point(0 * x)); gs.insert(PPL::point(2 * x)); gs.insert(PPL::point(2 * x + 2 * y)); gs.insert(PPL::point(2 * y));
+    PH* d = new PH(gs); (void)d->minimized_constraints(); { PH c(*d); (void)(*d == c); } d->add_constraint(x + y >= 1); return d; })));
+}
+inline void add_system_copy_oracles(ClassAdapter<PPL::Grid>& A, const PPL::Grid*) {
+  typedef PPL::Grid D; typedef Mut<D> M;
+  A.muts.push_back(M("copies of congruences()", false, [](D& d, const D*) { return check_system_copies(d, d.congruences(), "congruences()", true, true); }, true));
+  A.muts.push_back(M("copies of minimized_congruences()", false, [](D& d, const D*) { return check_system_copies(d, d.minimized_congruences(), "minimized_congruences()", true, true); }, true));
+  A.muts.push_back(M("copies of grid_generators()", false, [](D& d, const D*) { return check_system_copies(d, d.grid_generators(), "grid_generators()", true, false); }, true));
+  A.muts.push_back(M("copies of minimized_grid_generators()", false, [](D& d, const D*) { return check_system_copies(d, d.minimized_grid_generators(), "minimized_grid_generators()", true, false); }, true));
+  A.muts.push_back(M("operator== with a copy", false, [](D& d, const D*) { D c(d); std::string w = equality_inconsistency(d, c); if (!w.empty()) return marker("equality:disagrees-with-mutual-containment", "object vs its copy: " + w); return b2s(d == c); }, true));
+}
+template <class D> inline void add_system_copy_oracles(ClassAdapter<D>& A, const void*) {     // boxes, shapes: systems are returned by value
+  typedef Mut<D> M;
+  A.muts.push_back(M("operator== with a copy", false, [](D& d, const D*) { D c(d); std::string w = equality_inconsistency(d, c); if (!w.empty()) return marker("equality:disagrees-with-mutual-containment", "object vs its copy: " + w); return b2s(d == c); }, true));
+}
+
 template <class D> inline bool widen_pre(D& d, const D* a) { return d.space_dimension() == a->space_dimension() && (a == &d || d.contains(*a)); }
 
 // ---------------------------------------------------------------------------------------------------------
@@ -372,6 +469,7 @@ inline ClassAdapter<D> domain_alias_adapter(const std::string& name) {
   add_recycle_constraint_ops(A);
   add_wrap_op(A);
   add_domain_specific(A, (const D*)0);
+  add_system_copy_oracles(A, (const D*)0);
   add_plain_binary(A);
   if (DomTraits<D>::grid) {
     // Grid::constraints() keeps the equalities only and tells that the grid is empty only once that has been
@@ -382,6 +480,7 @@ inline ClassAdapter<D> domain_alias_adapter(const std::string& name) {
       "add_recycled_constraints(", "wrap_assign("}));
   }
   fill_io<D>(A, []() { return new D(0, PPL::UNIVERSE); });
+  A.equal = [](const D& a, const D& b) { return consistent_equal(a, b); };
   return A;
 }
 
@@ -395,7 +494,9 @@ inline ClassAdapter<D> domain_full_adapter(const std::string& name) {
   add_recycle_constraint_ops(A);
   add_wrap_op(A);
   add_domain_specific(A, (const D*)0);
+  add_system_copy_oracles(A, (const D*)0);
   add_plain_binary(A);
+  A.equal = [](const D& a, const D& b) { return consistent_equal(a, b); };
   return A;
 }
 
